@@ -1,13 +1,14 @@
 (* Tree/CopyProofsIrp.v — C13 proofs: a calculus for INDEPENDENCE of a protected region.
-   P : a fixed set of node ids (the tree of the protected model), b : the index of the protected model.
+   P : a fixed set of node ids (the trees of the protected models), PM : the set of protected model numbers.
      Sealed w   : P is allocated; no node outside P lists, or points with its parent link to, a node of P, and no node
-                  outside P claims to be the root of model b; the roots and the two index maps of every OTHER model
-                  mention no node of P; model b exists.
-     Same w w'  : every node of P, the record of model b and every file of model b are what they were.
+                  outside P claims to be the root of a protected model; the roots and the two index maps of every
+                  unprotected model mention no node of P; the protected models exist.
+     Same w w'  : every node of P, the record of every protected model and every file of a protected model are what
+                  they were.
      irpq Q c   : started in a Sealed world, c ends in a Sealed world with Same, and an OK result satisfies Q.
    Facts of the form ~ P i do not depend on the world: once learned (from reading a node outside P, from an allocation,
-   from the index of another model) they stay valid, which makes the calculus compositional although the nodes an
-   operation writes are computed from what it read before. *)
+   from the index of an unprotected model) they stay valid, which makes the calculus compositional although the nodes
+   an operation writes are computed from what it read before. *)
 From AV Require Import Base.Bytes Base.Outcome Hash.HashModel Tree.Heap Tree.Ops Tree.Script
   Tree.CopyProofsW Tree.CopyProofsDefs.
 From Coq Require Import Lia PeanoNat.
@@ -17,13 +18,13 @@ Open Scope N_scope.
 
 Section Irp.
 Variable P : id -> Prop.
-Variable b : N.
+Variable PM : N -> Prop.
 
 (* a node record that may be stored outside P *)
 Definition GoodN (n : node) : Prop :=
   (forall c, In (CElem c) (n_content n) -> ~ P c) /\
   (forall p, n_parent n = PElem p -> ~ P p) /\
-  n_parent n <> PModel b.
+  (forall m, n_parent n = PModel m -> ~ PM m).
 (* a model record that may be stored at an index other than b *)
 Definition GoodM (x : model) : Prop :=
   ~ P (m_root x) /\
@@ -33,17 +34,17 @@ Definition GoodM (x : model) : Prop :=
 Definition Sealed (w : world) : Prop :=
   (forall i, P i -> i < w_next w) /\
   (forall i n, ~ P i -> w_nodes w i = Some n -> GoodN n) /\
-  (forall k x, k <> N.to_nat b -> nth_opt (w_models w) k = Some x -> GoodM x) /\
-  (exists xb, nth_opt (w_models w) (N.to_nat b) = Some xb).
+  (forall m x, ~ PM m -> nth_opt (w_models w) (N.to_nat m) = Some x -> GoodM x) /\
+  (forall m, PM m -> exists x, nth_opt (w_models w) (N.to_nat m) = Some x).
 
 Definition FileSame (w w' : world) : Prop :=
   forall k, nth_opt (w_files w') k = nth_opt (w_files w) k \/
-            ((forall fl, nth_opt (w_files w) k = Some fl -> f_model fl <> b) /\
-             (forall fl, nth_opt (w_files w') k = Some fl -> f_model fl <> b)).
+            ((forall fl, nth_opt (w_files w) k = Some fl -> ~ PM (f_model fl)) /\
+             (forall fl, nth_opt (w_files w') k = Some fl -> ~ PM (f_model fl))).
 
 Definition Same (w w' : world) : Prop :=
   (forall i, P i -> w_nodes w' i = w_nodes w i) /\
-  nth_opt (w_models w') (N.to_nat b) = nth_opt (w_models w) (N.to_nat b) /\
+  (forall m, PM m -> nth_opt (w_models w') (N.to_nat m) = nth_opt (w_models w) (N.to_nat m)) /\
   FileSame w w'.
 
 Lemma FileSame_refl w : FileSame w w.
@@ -65,7 +66,7 @@ Lemma Same_trans a c d : Same a c -> Same c d -> Same a d.
 Proof.
   intros (A1 & A2 & A3) (B1 & B2 & B3). split; [|split].
   - intros i Hi. rewrite B1 by auto. auto.
-  - congruence.
+  - intros m Hm. rewrite B2 by auto. auto.
   - eapply FileSame_trans; eauto.
 Qed.
 
@@ -90,7 +91,7 @@ Proof. intros w r w' S E. discriminate E. Qed.
 Lemma irp_ro {A} (c : W A) : ro c -> irp c.
 Proof. intros R w r w' S E. apply R in E. subst. split; [exact S|]. split; [apply Same_refl|auto]. Qed.
 
-Lemma irpq_bind {A B} (Q1 : A -> Prop) (Q : B -> Prop) (c : W A) (k : A -> W B) :
+Lemma irpq_bind {A C} (Q1 : A -> Prop) (Q : C -> Prop) (c : W A) (k : A -> W C) :
   irpq Q1 c -> (forall a, Q1 a -> irpq Q (k a)) -> irpq Q (wbind c k).
 Proof.
   intros Hc Hk w r w' S E. apply wbind_inv in E as [(a & w1 & E1 & E2) | (e & E1 & ->)].
@@ -113,7 +114,7 @@ Proof.
   intros Hc w r w' S E. apply wcatch_inv in E as (r0 & E & _). destruct (Hc _ _ _ S E) as (S1 & Sm & _). auto.
 Qed.
 (* a computation that starts by looking at the whole world (fuel) *)
-Lemma irpq_wget {B} (Q : B -> Prop) (k : world -> W B) : (forall w0, irpq Q (k w0)) -> irpq Q (wbind wget k).
+Lemma irpq_wget {C} (Q : C -> Prop) (k : world -> W C) : (forall w0, irpq Q (k w0)) -> irpq Q (wbind wget k).
 Proof.
   intros Hk w r w' S E. apply wbind_inv in E as [(a & w1 & E1 & E2) | (e & E1 & _)].
   - apply wget_inv in E1 as ([= <-] & ->). eapply Hk; eauto.
@@ -134,14 +135,14 @@ Proof.
   intros j Hj. unfold wset; cbn [w_nodes]. apply upd_neq. intros ->. auto.
 Qed.
 
-Lemma irpq_get {B} (Q : B -> Prop) i (k : node -> W B) :
+Lemma irpq_get {C} (Q : C -> Prop) i (k : node -> W C) :
   ~ P i -> (forall n, GoodN n -> irpq Q (k n)) -> irpq Q (wbind (get_node i) k).
 Proof.
   intros Hi Hk w r w' S E. apply wbind_inv in E as [(n & w1 & E1 & E2) | (e & E1 & _)].
   - apply get_node_inv in E1 as (n' & Hn & [= <-] & ->). eapply (Hk n); eauto. eapply (proj1 (proj2 S)); eauto.
   - apply get_node_inv in E1 as (n' & _ & [=] & _).
 Qed.
-Lemma irpq_get_any {B} (Q : B -> Prop) i (k : node -> W B) :
+Lemma irpq_get_any {C} (Q : C -> Prop) i (k : node -> W C) :
   (forall n, irpq Q (k n)) -> irpq Q (wbind (get_node i) k).
 Proof.
   intros Hk w r w' S E. apply wbind_inv in E as [(n & w1 & E1 & E2) | (e & E1 & _)].
@@ -174,51 +175,55 @@ Proof.
 Qed.
 
 (* ------------------------------------------------------------------ model records *)
+Lemma to_nat_neq m m' : m' <> m -> N.to_nat m' <> N.to_nat m.
+Proof. intros H E. apply H. apply Nnat.N2Nat.inj. exact E. Qed.
+
 Lemma Sealed_wmodels w m x' :
-  Sealed w -> m <> b -> GoodM x' -> Sealed (wmodels w (list_set (w_models w) (N.to_nat m) x')).
+  Sealed w -> ~ PM m -> GoodM x' -> Sealed (wmodels w (list_set (w_models w) (N.to_nat m) x')).
 Proof.
-  intros (S1 & S2 & S3 & (xb & S4)) Hm Hg. split; [exact S1|]. split; [exact S2|]. split.
-  - intros k x Hk Hx. unfold wmodels in Hx; cbn [w_models] in Hx.
-    destruct (Nat.eq_dec k (N.to_nat m)) as [->|Hne].
+  intros (S1 & S2 & S3 & S4) Hm Hg. split; [exact S1|]. split; [exact S2|]. split.
+  - intros m' x Hk Hx. unfold wmodels in Hx; cbn [w_models] in Hx.
+    destruct (N.eq_dec m' m) as [->|Hne].
     + destruct (nth_opt (w_models w) (N.to_nat m)) as [y|] eqn:Ey.
       * rewrite nth_opt_nth_error in Hx, Ey. rewrite (list_set_nth_eq _ _ _ _ Ey) in Hx. injection Hx as <-. exact Hg.
       * rewrite nth_opt_nth_error in Ey. rewrite (list_set_none _ _ _ Ey) in Hx. rewrite <- nth_opt_nth_error in Ey. congruence.
-    + rewrite nth_opt_nth_error, list_set_nth_neq, <- nth_opt_nth_error in Hx by exact Hne. eapply S3; eauto.
-  - exists xb. unfold wmodels; cbn [w_models]. rewrite nth_opt_nth_error, list_set_nth_neq, <- nth_opt_nth_error; auto.
-    intros E. apply Hm. apply Nnat.N2Nat.inj. symmetry. exact E.
+    + rewrite nth_opt_nth_error, list_set_nth_neq, <- nth_opt_nth_error in Hx by (apply to_nat_neq; exact Hne). eapply S3; eauto.
+  - intros m' Hm'. destruct (S4 m' Hm') as (xb & Hxb). exists xb. unfold wmodels; cbn [w_models].
+    rewrite nth_opt_nth_error, list_set_nth_neq, <- nth_opt_nth_error; auto.
+    apply to_nat_neq. intros ->. auto.
 Qed.
-Lemma Same_wmodels w m x' : m <> b -> Same w (wmodels w (list_set (w_models w) (N.to_nat m) x')).
+Lemma Same_wmodels w m x' : ~ PM m -> Same w (wmodels w (list_set (w_models w) (N.to_nat m) x')).
 Proof.
   intros Hm. split; [reflexivity|]. split; [|apply FileSame_eq; reflexivity].
-  unfold wmodels; cbn [w_models]. rewrite nth_opt_nth_error, list_set_nth_neq, <- nth_opt_nth_error; auto.
-  intros E. apply Hm. apply Nnat.N2Nat.inj. symmetry. exact E.
+  intros m' Hm'. unfold wmodels; cbn [w_models]. rewrite nth_opt_nth_error, list_set_nth_neq, <- nth_opt_nth_error; auto.
+  apply to_nat_neq. intros ->. auto.
 Qed.
 
-Lemma irpq_get_model {B} (Q : B -> Prop) m (k : model -> W B) :
-  m <> b -> (forall x, GoodM x -> irpq Q (k x)) -> irpq Q (wbind (get_model m) k).
+Lemma irpq_get_model {C} (Q : C -> Prop) m (k : model -> W C) :
+  ~ PM m -> (forall x, GoodM x -> irpq Q (k x)) -> irpq Q (wbind (get_model m) k).
 Proof.
   intros Hm Hk w r w' S E. apply wbind_inv in E as [(x & w1 & E1 & E2) | (e & E1 & _)].
   - apply get_model_inv in E1 as (x' & Hx & [= <-] & ->). eapply (Hk x); eauto.
-    apply (proj1 (proj2 (proj2 S)) (N.to_nat m) x); [|exact Hx]. intros E. apply Hm. apply Nnat.N2Nat.inj. exact E.
+    exact (proj1 (proj2 (proj2 S)) m x Hm Hx).
   - apply get_model_inv in E1 as (x' & _ & [=] & _).
 Qed.
-Lemma irpq_get_model_any {B} (Q : B -> Prop) m (k : model -> W B) :
+Lemma irpq_get_model_any {C} (Q : C -> Prop) m (k : model -> W C) :
   (forall x, irpq Q (k x)) -> irpq Q (wbind (get_model m) k).
 Proof.
   intros Hk w r w' S E. apply wbind_inv in E as [(x & w1 & E1 & E2) | (e & E1 & _)].
   - apply get_model_inv in E1 as (x' & Hx & [= <-] & ->). eapply (Hk x); eauto.
   - apply get_model_inv in E1 as (x' & _ & [=] & _).
 Qed.
-Lemma irp_set_model m x' : m <> b -> GoodM x' -> irp (set_model m x').
+Lemma irp_set_model m x' : ~ PM m -> GoodM x' -> irp (set_model m x').
 Proof.
   intros Hm Hg w r w' S E. apply set_model_inv in E as (_ & ->).
   split; [apply Sealed_wmodels; auto|]. split; [apply Same_wmodels; auto|auto].
 Qed.
-Lemma irp_modify_model m f : m <> b -> (forall x, GoodM x -> GoodM (f x)) -> irp (modify_model m f).
+Lemma irp_modify_model m f : ~ PM m -> (forall x, GoodM x -> GoodM (f x)) -> irp (modify_model m f).
 Proof.
   intros Hm Hf w r w' S E. apply modify_model_inv in E as (x & Hx & _ & ->).
   split; [|split; [apply Same_wmodels; auto|auto]]. apply Sealed_wmodels; auto. apply Hf.
-  apply (proj1 (proj2 (proj2 S)) (N.to_nat m) x); [|exact Hx]. intros E. apply Hm. apply Nnat.N2Nat.inj. exact E.
+  exact (proj1 (proj2 (proj2 S)) m x Hm Hx).
 Qed.
 
 (* ------------------------------------------------------------------ lists of ids that are outside P *)
